@@ -93,6 +93,8 @@ func (b *base) panicked(key string) bool {
 func (b *base) expect(a *actor, key, panicKey, what string, evs ...string) string {
 	t := time.NewTimer(watchdog)
 	defer t.Stop()
+	tries := 0
+again:
 	select {
 	case e := <-a.ev:
 		for _, w := range evs {
@@ -106,6 +108,13 @@ func (b *base) expect(a *actor, key, panicKey, what string, evs ...string) strin
 		b.fail(panicKey, what+": the serve goroutine panicked: "+p)
 		return ""
 	case <-t.C:
+		// a timeout is believed only when the goroutine is parked in a blocking
+		// operation; while it is merely slow the wait is extended
+		if tries < 5 && !quiescent(a) {
+			tries++
+			t.Reset(watchdog)
+			goto again
+		}
 		b.fail(key, what+fmt.Sprintf(" (no arrival at any of %v within %v)", evs, watchdog))
 		return ""
 	}
